@@ -53,7 +53,7 @@ def wiring(ctx, rep, mod, enc_half, dec_half, enc_fn, dec_fn, inline=None):
             adt = ctx.fb.adt_fields(half)
             tys = [ctx.fb.ty(adt[i]["ty"]).k if i is not None else None for i in flds]
             good = data_ok and None not in flds and len(set(flds)) == 3 and tys == ["array", "int", "int"]
-            desc = "raw(data, self.%s, &mut self.%s, &mut self.%s)" % tuple(adt[i]["name"] if i is not None else "?" for i in flds)
+            desc = "raw(data, %s)" % ", ".join("self.%s" % adt[i]["name"] if i is not None else "?" for i in flds)
             # index / previous roles: new() gives both 0, so their order is fixed by the raw op's
             # parameter roles; a swap (prev passed as index) is a real defect and is visible here
             if good:
